@@ -133,6 +133,9 @@ struct ScriptedShared
     // alphabet of bk_outcomes() and every secondary/parent keeps `bk_energy`
     bool bookkeeping{false};
     double bk_energy{1.0};
+    // Extended bookkeeping alphabet (bk_outcomes_ext(): the 8 letters + die+e-, survive+gamma,
+    // unchanged); off by default so that existing users keep the 8-letter menu
+    bool bk_extended{false};
 };
 
 //! Bookkeeping alphabet: {parent survives?, secondaries (0 gamma,1 e-), of which sub-cut}
@@ -142,6 +145,7 @@ struct BkOutcome
     int nsec;
     int kinds[2];  // 0 gamma, 1 electron
     bool subcut[2];
+    bool unchanged;  // Interaction::from_unchanged(): the secondaries span is NOT rewritten
     int surviving_secondaries() const { return nsec - int(subcut[0]) - int(nsec > 1 && subcut[1]); }
 };
 inline BkOutcome const* bk_outcomes()
@@ -159,6 +163,27 @@ inline BkOutcome const* bk_outcomes()
     return t;
 }
 inline constexpr int bk_num_outcomes = 8;
+//! Extended alphabet: letters 0-7 are bk_outcomes(); 8 die + e- (charged secondary initialised
+//! in place), 9 survive + gamma, 10 "unchanged" (returned before any allocation: the track
+//! survives, emits nothing and its PhysicsStepView::secondaries span is left as it was)
+inline BkOutcome const* bk_outcomes_ext()
+{
+    static BkOutcome const t[11] = {
+        {false, 0, {0, 0}, {false, false}, false},  // die+0
+        {true, 0, {0, 0}, {false, false}, false},  // survive+0
+        {true, 1, {1, 0}, {false, false}, false},  // survive + e-
+        {false, 1, {0, 0}, {false, false}, false},  // die + gamma
+        {false, 2, {0, 1}, {false, false}, false},  // die + gamma + e-
+        {true, 2, {1, 0}, {false, false}, false},  // survive + e- + gamma
+        {false, 1, {1, 0}, {true, false}, false},  // die + sub-cut e-      (nothing survives)
+        {false, 2, {1, 0}, {true, false}, false},  // die + sub-cut e- + gamma
+        {false, 1, {1, 0}, {false, false}, false},  // die + e-
+        {true, 1, {0, 0}, {false, false}, false},  // survive + gamma
+        {true, 0, {0, 0}, {false, false}, true},  // unchanged
+    };
+    return t;
+}
+inline constexpr int bk_num_outcomes_ext = 11;
 
 inline int particle_kind(ScriptedShared const& s, ParticleId p)
 {
@@ -255,9 +280,12 @@ struct ScriptedExecutor
                                    unsigned(sim.track_id().unchecked_get()),
                                    unsigned(sim.num_steps()),
                                    unsigned(track.track_slot_id().unchecked_get())};
-                pick = g_loop_chooser->choose(bk_num_outcomes, q);
+                pick = g_loop_chooser->choose(s.bk_extended ? bk_num_outcomes_ext : bk_num_outcomes,
+                                              q);
             }
-            BkOutcome const& o = bk_outcomes()[pick];
+            BkOutcome const& o = s.bk_extended ? bk_outcomes_ext()[pick] : bk_outcomes()[pick];
+            if (o.unchanged)
+                return Interaction::from_unchanged();
             auto allocate = track.make_physics_step_view().make_secondary_allocator();
             Interaction r;
             Secondary* sec = nullptr;
@@ -923,6 +951,7 @@ struct LoopConfig
     // 4th particle: proton (positive, NOT an antiparticle, no MSC model): primary kind 3
     bool with_proton{false};
     bool bookkeeping{false};
+    bool bookkeeping_extended{false};  // 11-letter alphabet bk_outcomes_ext()
     std::vector<StepActionOrder> probes;  // orders at which a ProbeAction is inserted
     std::vector<StepActionOrder> throwers;  // orders at which a ThrowAction is inserted
     // scoring variants (C17)
@@ -1090,6 +1119,7 @@ inline std::unique_ptr<LoopProblem> make_loop_problem(LoopConfig const& cfg)
         P->shared->proton = P->proton;
         P->shared->menu = cfg.menu;
         P->shared->bookkeeping = cfg.bookkeeping;
+        P->shared->bk_extended = cfg.bookkeeping_extended;
         PhysicsParams::Input pin;
         pin.particles = P->particle;
         pin.materials = P->material;
